@@ -20,6 +20,7 @@ def configs(tier):
         add(spec('localp', 'localp', 2, 3, 2, order=1, limits=2), 1, 3, 1, 3, 0); add(spec('localp', 'semi-localp', 2, 2, 2, order=2), 2, 0, mut=1); add(spec('localp', 'localp', 2, 2, 1, order=1), 2, 3, 1, 2, 0)
         add(spec('global', 'clenshaw-curtis', 2, 3, 2, transform=1), 1, 3, 0, 2, 1); add(spec('global', 'leja', 2, 2, 2), 2, 1, mut=0); add(spec('global', 'gauss-legendre', 2, 2, 2), 0, 3, 1, 2, 0); add(spec('global', 'gauss-jacobi', 2, 2, 2, transform=1, alpha=0.5, beta=1.5), 0, 0, mut=1); add(spec('global', 'gauss-gegenbauer', 1, 2, 2, transform=1, alpha=2.0), 0, 3, 0, 1, 0)
         add(spec('sequence', 'rleja', 2, 3, 2), 1, 3, 2, 3, 0); add(spec('sequence', 'leja', 2, 2, 2), 2, 2, mut=1); add(spec('sequence', 'min-delta', 2, 2, 1), 2, 3, 0, 1, 0)
+        add(spec('global', 'clenshaw-curtis', 2, 2, 1), 3, 2, mut=2, max_paths=50, strategy='tree', time_budget_s=40); add(spec('sequence', 'rleja', 2, 2, 1), 3, 3, 0, 1, 2, max_paths=40, strategy='tree', time_budget_s=40); add(spec('localp', 'localp', 2, 2, 1, order=1), 3, 0, mut=2, max_paths=40, strategy='tree', time_budget_s=40)   # solver-chosen histories before the copy
         add(spec('fourier', 'fourier', 2, 2, 1), 1, 3, 1, 2, 0); add(spec('fourier', 'fourier', 1, 2, 1), 2, 0, mut=1)
         add(spec('wavelet', 'wavelet', 2, 2, 1, order=1), 1, 3, 0, 1, 0); add(spec('wavelet', 'wavelet', 1, 2, 1, order=1), 2, 1, mut=1)
         for sp in (spec('wavelet', 'wavelet', 1, 3, 2, order=1), spec('localp', 'localp', 2, 3, 2, order=1), spec('global', 'leja', 2, 3, 2), spec('sequence', 'rleja', 2, 3, 2), spec('fourier', 'fourier', 1, 3, 1)): add(sp, 2, 3, 1, 3, 2); add(sp, 1, 3, 2, 3, 2)
@@ -27,6 +28,9 @@ def configs(tier):
         fams = [spec('localp', r, 2, 3, 2, order=o, limits=(2 if o == 1 else 0)) for r in LOCAL_RULES for o in (0, 1, 2, 3) if not (o == 0 and r != 'localp')]
         fams += [spec('global', r, 2, 3, 2, transform=(1 if r == 'fejer2' else 0)) for r in ('clenshaw-curtis', 'leja', 'fejer2', 'rleja-odd', 'gauss-patterson')] + [spec('global', r, 2, 3, 2) for r in ('gauss-legendre', 'chebyshev', 'gauss-hermite')] + [spec('global', 'gauss-jacobi', 2, 3, 2, transform=1, alpha=0.5, beta=1.5), spec('global', 'gauss-laguerre', 2, 3, 2, transform=1, alpha=1.0), spec('global', 'gauss-chebyshev2', 2, 3, 2, transform=1)]
         fams += [spec('sequence', r, 2, 3, 2) for r in SEQUENCE_RULES] + [spec('fourier', 'fourier', 2, 3, 1), spec('wavelet', 'wavelet', 2, 3, 1, order=1), spec('wavelet', 'wavelet', 1, 3, 2, order=3)]
+        for sp in (spec('global', 'clenshaw-curtis', 2, 2, 1), spec('global', 'leja', 2, 3, 1, limits=2), spec('sequence', 'rleja', 2, 2, 1), spec('sequence', 'min-delta', 2, 3, 2, transform=1), spec('fourier', 'fourier', 2, 2, 1), spec('localp', 'localp', 2, 2, 1, order=1),
+                   spec('localp', 'semi-localp', 2, 3, 1, order=2), spec('wavelet', 'wavelet', 1, 2, 1, order=1)):
+            add(sp, 3, 2, mut=2, max_paths=343, strategy='tree', time_budget_s=400); add(sp, 3, 3, 1, 2, 2, max_paths=200, strategy='tree', time_budget_s=300); add(sp, 3, 0, mut=0, max_paths=120, strategy='tree', time_budget_s=200); add(sp, 3, 1, mut=1, max_paths=120, strategy='tree', time_budget_s=200)
         for sp in fams:
             nonnested = any(r in sp for r in ('gauss-legendre', 'chebyshev', 'gauss-hermite', 'gauss-jacobi', 'gauss-laguerre'))
             for hist in ((0,) if nonnested else (0, 1, 2)):
